@@ -211,21 +211,35 @@ pub fn check(case: &Case) -> CaseResult {
                 })
             };
             let stop_racer = Arc::new(std::sync::atomic::AtomicBool::new(false));
-            let racer = (case.end == End::GlobalDetach && case.racing_appender).then(|| {
+            // a second thread keeps appending (entries that are not judged) while the drop is in
+            // progress: through the global for a detach, through a clone of the queue handle
+            // for a plain handle drop
+            let racer_handle = (case.end == End::DropHandle && case.racing_appender && !rec_hold_active).then(|| handles[0].clone());
+            let racer = ((case.end == End::GlobalDetach && case.racing_appender) || racer_handle.is_some()).then(|| {
                 let stop = stop_racer.clone();
                 std::thread::spawn(move || {
                     let mut n = 0u32;
                     while !stop.load(std::sync::atomic::Ordering::Relaxed) {
                         if n < 3000 {
-                            let _ = C05Global::try_append(TestE(Id { p: 1, s: n }));
+                            match &racer_handle {
+                                Some(q) => q.append(TestE(Id { p: 1, s: n })),
+                                None => {
+                                    let _ = C05Global::try_append(TestE(Id { p: 1, s: n }));
+                                }
+                            }
                             n += 1;
-                        } else {
+                        } else if racer_handle.is_none() {
                             let _ = C05Global::try_sink();
+                        } else {
+                            std::thread::yield_now();
                         }
                     }
                 })
             });
-            if racer.is_some() {
+            if racer.is_some() && case.end == End::DropHandle {
+                classes.push("handle-drop-with-racing-appender");
+                std::thread::sleep(Duration::from_micros(100));
+            } else if racer.is_some() {
                 classes.push("detach-with-racing-appender");
                 // let the racer get going
                 std::thread::sleep(Duration::from_micros(100));
@@ -439,7 +453,7 @@ pub fn run(ctx: &mut Ctx) {
         SubCfg::new("c05-shutdown", RULE, if q { 1_500 } else { 30_000 })
             .threads(ctx.tier.pick(4, 8))
             .shrink_iters(60)
-            .mandatory(&["entries-queued-at-shutdown", "forget-path", "drop-handle", "global-detach", "append-after-shutdown", "last-handle-dropped-during-periodic-flush", "handle-dropped-while-unwinding", "detach-with-racing-appender", "forget-with-unawaited-flush-futures-alive", "stream-io-results", "stream-flush-errors", "handle-dropped-while-writer-inside-recorder-call"]),
+            .mandatory(&["entries-queued-at-shutdown", "forget-path", "drop-handle", "global-detach", "append-after-shutdown", "last-handle-dropped-during-periodic-flush", "handle-dropped-while-unwinding", "detach-with-racing-appender", "handle-drop-with-racing-appender", "forget-with-unawaited-flush-futures-alive", "stream-io-results", "stream-flush-errors", "handle-dropped-while-writer-inside-recorder-call"]),
         || {
             (
                 any::<bool>(),
